@@ -107,18 +107,12 @@ def time_domain(rep, prog):
     wspec = spec(ev, "frequency_components(self.circuit, self.w_max)", {'self': A('self'), 'frequency_components': ev.ref_of(prog.resolve(prog.mod(CC), 'frequency_components'))}, m)
     rep.ob('R09.time', 'frequencies', True if term_equal(w, wspec) else (None if w is None or has_opaque(w) else False), f'self.w = {w!r:.120}', site)
     sols = ev.stores.get(('self', '_solutions'))
-    # solutions[k] = solver(transform_circuit(circuit, w[k], ...)) in the order of self.w
+    # solutions[k] = solver(transform_circuit(circuit, w[k], ...)) in the order of self.w (map fusion makes the intermediate lists irrelevant)
     ok = None
-    if isinstance(sols, Comp) and len(sols.gens) == 1:
-        nets = sols.gens[0][0]
-        if isinstance(nets, Comp) and len(nets.gens) == 1 and not nets.gens[0][1] and not sols.gens[0][1]:
-            same_w = term_equal(nets.gens[0][0], w)
-            wk = ev.elem_of(nets.gens[0][0], 0)
-            at = nets.elt.as_atom() if isinstance(nets.elt, Poly) else None
-            net_ok = bool(at and at[0] == 'call' and at[1] == ('fn', 'transform_circuit') and len(at[2]) >= 2 and at[2][0] == tkey(ev.getattr(A('self'), 'circuit', m, 0)) and at[2][1] == tkey(wk))
-            sat = sols.elt.as_atom() if isinstance(sols.elt, Poly) else None
-            sol_ok = bool(sat and sat[0] == 'call' and sat[1] == ('.', 'self', 'solver') and len(sat[2]) == 1 and sat[2][0] == tkey(nets.elt))
-            ok = bool(same_w and net_ok and sol_ok)
+    if sols is not None and w is not None:
+        sp_ = spec(ev, "[self.solver(n_) for n_ in [transform_circuit(self.circuit, v_, 1e-3) for v_ in W]]",
+                   {'self': A('self'), 'W': w, 'transform_circuit': ev.ref_of(prog.resolve(prog.mod(CC), 'transform_circuit'))}, m)
+        ok = True if term_equal(sols, sp_) else (None if has_opaque(sols) or not isinstance(sols, Comp) else False)
     rep.ob('R09.time', 'solutions-in-frequency-order', ok if ok is not None else (None), f'_solutions = {sols!r:.260}', site)
     for q in ('voltage', 'current', 'potential'):
         t, st = method_term(prog, ev, m, cls, f'get_{q}', [A('id')])
@@ -139,17 +133,15 @@ def time_domain(rep, prog):
             exact = all(isinstance(x, Opq) and x.k[0] == 'cmp' and x.k[1] in ('NotEq', 'Gt') and 'isclose' not in repr(x) for x in flt)
             okf = None if exact else False
             why = f' -- spectral lines are filtered by {flt[0]!r:.120}: lines that fail the test are missing from the sum'
-        elif isinstance(val, Opq) and val.k[0] == 'Σ' and isinstance(val.k[1], Comp) and len(val.k[1].gens) == 1:
-            cp = val.k[1]; it = cp.gens[0][0]
-            pair_ok = False
-            if isinstance(it, Opq) and it.k[0] == 'zip' and len(it.k) == 3:
-                vals, ws = it.k[1], it.k[2]
-                vspec = Comp(ev.call_method(ev.elem_of(sols, 0), f'get_{q}', [A('id')], {}, m, 0), [(sols, [])], 'list') if sols is not None else None
-                pair_ok = term_equal(ws, w) and vspec is not None and term_equal(vals, vspec)
-                X, W = ev.elem_of(it, 0)
-                fs = spec(ev, "abs(X)*cos(W*t + angle(X))", {'X': X, 'W': W, 't': A('t')}, m)
-                okf = bool(pair_ok and term_equal(cp.elt, fs) and not cp.gens[0][1])
-                if not okf and has_opaque(cp.elt): okf = None
+        elif val is not None and w is not None:
+            # normal form: one sum over the frequency list, each term |X_k| cos(w_k t + arg X_k) with X_k the quantity of the solution of
+            # the network transformed at w_k (maps over the same list and their zip are fused)
+            src = (f"sum([abs(s_.get_{q}(id))*cos(w_*t + angle(s_.get_{q}(id))) for s_, w_ in "
+                   "zip([self.solver(n_) for n_ in [transform_circuit(self.circuit, v_, 1e-3) for v_ in W]], W)])")
+            sp = spec(ev, src, {'self': A('self'), 'id': A('id'), 't': A('t'), 'W': w,
+                                'transform_circuit': ev.ref_of(prog.resolve(prog.mod(CC), 'transform_circuit'))}, m)
+            core = lambda x: Comp(x.k[1].elt, x.k[1].gens, 'list') if isinstance(x, Opq) and x.k and x.k[0] == 'Σ' and isinstance(x.k[1], Comp) else x
+            okf = True if term_equal(core(val), core(sp)) else (None if has_opaque(val) else False)
         rep.ob('R09.time', f'get_{q}', okf, f'{q}(t) = {val!r:.300}{why}', st, lhs=val)
 
 
@@ -159,10 +151,10 @@ def peak_and_types(rep, prog):
     site = prog.site(mem[0], mem[1])
     ev = new_ev(prog, OPAQUE_CIRCUIT); ev.opaque_classes |= {'ComplexSolution'}
     ev.assign  # noqa
-    # evaluate only the statements before the two-sided branch
-    body = [st for st in mem[1].body if not isinstance(st, ast.If)]
-    env = {'__parent__': None, 'self': A('self')}
-    ev.block(body, env, m, 1)
+    # the one-sided spectrum: evaluate the initialiser with self.one_sided fixed to True (however the two-sided branch is attached)
+    ev.stores[('self', 'one_sided')] = True
+    ev.self_class = (m, cls)
+    ev.call_fn(mem[1], mem[0], [A('self')], {}, {'__parent__': None}, 1)
     sols = ev.stores.get(('self', '_solutions'))
     ok = None
     if isinstance(sols, Comp) and len(sols.gens) == 1:
